@@ -15,7 +15,7 @@ import (
 )
 
 type C11Op struct {
-	Kind    string // announce | badannounce | get | getburst | annburst
+	Kind    string // announce | badannounce | get | getburst | annburst | swarm
 	IP      int    // index into the IP pool
 	SrcPort int    // UDP source port
 	IH      int    // index into the infohash pool
@@ -27,6 +27,9 @@ type C11Op struct {
 	// Burst: the members of a getburst / annburst; their datagrams are injected back to back and
 	// answered concurrently, then judged together
 	Burst []C11Op
+	// Swarm: this many further hosts (synthetic IPv4 addresses outside the scenario's pool) announce the
+	// infohash; afterwards one of them re-announces with another port
+	Swarm int
 }
 
 type C11Sc struct {
@@ -38,7 +41,7 @@ type C11Sc struct {
 
 func genC11(t *rapid.T) C11Sc {
 	sc := C11Sc{Dual: rapid.Bool().Draw(t, "dual")}
-	nip := rapid.IntRange(1, 5).Draw(t, "nips")
+	nip := 1 + uniformInt(t, 8, "nips")
 	seen := map[string]bool{}
 	for len(sc.IPs) < nip {
 		s := genSrc(t, sc.Dual, "ip")
@@ -53,12 +56,27 @@ func genC11(t *rapid.T) C11Sc {
 	for i := 0; i < nih; i++ {
 		ih := genBytesN(t, 20, "ih")
 		ih[0] = byte(i) // distinct
+		if i == 0 {
+			switch uniformInt(t, 8, "ih.special") {
+			case 0:
+				ih = make(kit.Hex, 20) // the all-zero infohash is an infohash like any other
+			case 1:
+				for j := range ih {
+					ih[j] = 0xff
+				}
+				ih[0] = 0
+			}
+		}
 		sc.IHs = append(sc.IHs, ih)
 	}
 	n := rapid.IntRange(2, deep(t, 30)).Draw(t, "nops")
 	for i := 0; i < n; i++ {
 		op := C11Op{IP: rapid.IntRange(0, nip-1).Draw(t, "op.ip"), SrcPort: genPort(t, "op.srcport"), IH: rapid.IntRange(0, nih-1).Draw(t, "op.ih")}
 		switch r := rapid.IntRange(0, 12).Draw(t, "op.kind"); {
+		case r == 9 && uniformInt(t, 4, "op.swarm") == 0:
+			// a popular torrent: far more announcers than any reply of the other ops ever holds
+			op.Kind = "swarm"
+			op.Swarm = []int{9, 65, 127, 128, 129, 130, 200, 257}[uniformInt(t, 8, "op.swarmsize")]
 		case r == 10:
 			// several requesters at once, for different infohashes and wants, each from its own endpoint
 			op.Kind = "getburst"
@@ -69,6 +87,13 @@ func genC11(t *rapid.T) C11Sc {
 		case r >= 11:
 			// announces from distinct IPs for one infohash, all in flight at once
 			op.Kind = "annburst"
+			if rapid.Bool().Draw(t, "b.fresh") {
+				// an infohash nobody has announced or asked for yet: the burst holds its very first announces
+				ih := genBytesN(t, 20, "b.freshih")
+				ih[0] = byte(len(sc.IHs))
+				sc.IHs = append(sc.IHs, ih)
+				op.IH = len(sc.IHs) - 1
+			}
 			order := rapid.Permutation(seqInts(nip)).Draw(t, "b.ips")
 			nb := 1 + uniformInt(t, nip, "op.nburst")
 			for j := 0; j < nb; j++ {
@@ -362,6 +387,96 @@ func runC11(sc C11Sc, c *kit.Case) *kit.Violation {
 				return nil
 			}
 			if v := judgeGet(o, &net.UDPAddr{IP: net.IP(sc.IPs[op.Burst[0].IP]), Port: 30000 + oi}, op.IH, []string{"n4", "n6"}, oi); v != nil {
+				return v
+			}
+		case "swarm":
+			type member struct {
+				from *net.UDPAddr
+				tt   []byte
+				tok  string
+				ep   endpoint
+			}
+			ms := make([]*member, op.Swarm)
+			mark := sv.C.NumOut()
+			for j := range ms {
+				ip := net.IP{10, 77, byte(j >> 8), byte(j)}
+				if sc.Dual {
+					ip = ip.To16()
+				}
+				ms[j] = &member{from: &net.UDPAddr{IP: ip, Port: 7000 + j}, tt: nextT("sg")}
+				sv.C.Inject(ms[j].from, mkQuery(ms[j].tt, "get_peers", mkArgs(sender, BKV{K: "info_hash", V: bs(sc.IHs[op.IH])})))
+			}
+			if !sv.barrier(c) {
+				return nil
+			}
+			outs := outsFrom(sv.C, mark)
+			if len(outs) != len(ms) {
+				waitFor(2*time.Second, func() bool { return len(outsFrom(sv.C, mark)) == len(ms) })
+				outs = outsFrom(sv.C, mark)
+			}
+			for _, mb := range ms {
+				o, found := replyTo(outs, mb.from, mb.tt)
+				if !found || o.Y != "r" {
+					return kit.Violatef("C11:get-peers-not-answered", "get_peers from %v (one of %d hosts asking at once) was not answered with a response", mb.from, len(ms))
+				}
+				r, _ := o.R()
+				tk, ok := r.Get("token")
+				if !ok || tk.Kind != 's' {
+					return kit.Violatef("C11:no-token", "get_peers reply carries no token: %s", o.Describe())
+				}
+				mb.tok = tk.S
+			}
+			announceAll := func(which []*member, port func(j int) int) *kit.Violation {
+				mark := sv.C.NumOut()
+				for j, mb := range which {
+					mb.tt = nextT("sa")
+					p := port(j)
+					mb.ep = endpoint{string(refmodel.Unmap(mb.from.IP)), p}
+					sv.C.Inject(mb.from, mkQuery(mb.tt, "announce_peer", mkArgs(sender, BKV{K: "info_hash", V: bs(sc.IHs[op.IH])}, BKV{K: "port", V: bint(int64(p))}, BKV{K: "token", V: bstr(mb.tok)})))
+				}
+				if !sv.barrier(c) {
+					return nil
+				}
+				n := func() int {
+					outs := outsFrom(sv.C, mark)
+					k := 0
+					for _, mb := range which {
+						if o, found := replyTo(outs, mb.from, mb.tt); found && o.Y == "r" {
+							k++
+						}
+					}
+					return k
+				}
+				if n() != len(which) {
+					waitFor(2*time.Second, func() bool { return n() == len(which) })
+				}
+				if k := n(); k != len(which) {
+					return kit.Violatef("C11:announce-not-accepted", "of %d announce_peer queries for infohash #%d, each with a token just issued to its IP, only %d were answered with a response", len(which), op.IH, k)
+				}
+				for _, mb := range which {
+					record(op.IH, mb.ep)
+				}
+				return nil
+			}
+			if v := announceAll(ms, func(j int) int { return 20000 + j }); v != nil || c.Inconclusive != "" {
+				return v
+			}
+			// one member moves to another port, a newcomer joins: both must be what get_peers says afterwards
+			late := []*member{ms[len(ms)/2]}
+			if v := announceAll(late, func(int) int { return 40000 + oi }); v != nil || c.Inconclusive != "" {
+				return v
+			}
+			c.Label(fmt.Sprintf("swarm-%d", op.Swarm))
+			burstSeen = true
+			asker := &net.UDPAddr{IP: ms[0].from.IP, Port: 30000 + oi}
+			o, v := getPeers(asker, op.IH, []string{"n4", "n6"})
+			if v != nil {
+				return v
+			}
+			if c.Inconclusive != "" {
+				return nil
+			}
+			if v := judgeGet(o, asker, op.IH, []string{"n4", "n6"}, oi); v != nil {
 				return v
 			}
 		case "getburst":
